@@ -368,7 +368,8 @@ EXPECT = ["C19.default_state_rates_sum_to_theta.1d", "C19.theta_is_mass_below_th
 
 
 def main(tier):
-    bounds = {"grids": "credit grids in 1-d (7 points) and 2-d (7x7 asymmetric; 9x9 symmetric in thorough), thresholds/steps/bounds arbitrary reals with a < -h",
+    bounds = {"histories_and_variants": 'marginal mass outside the truncation box solver-chosen (2-d); default-time underlyings over two successive paths',
+              "grids": "credit grids in 1-d (7 points) and 2-d (7x7 asymmetric; 9x9 symmetric in thorough), thresholds/steps/bounds arbitrary reals with a < -h",
               "closed forms": "dimensions 1..3 for theta, 1..2 for the spread maps",
               "outside": "3-d chain sum (9^3 cells), Brent's method itself (contract stub), Monte-Carlo estimation of default times"}
     return run_check(PID, tier, harnesses(tier), expect=EXPECT, bounds=bounds,
